@@ -240,4 +240,194 @@ theorem numberToFloat_generic_truncated {F : FTy} (hF : IsLemireFloat F) (slow :
       rw [if_pos hinv, hsp, toNative_eq F _ n.isNegative (hslow fp hm hinv hbr), hbits, hlit]
       rfl
 
+/-! ## power-of-two radices: `binary` and `slow_binary` -/
+
+theorem binary_no_panic (F : FTy) (b : Nat) (n : Num) (lossy : Bool) : Binary.binary F b n lossy ≠ .panic := by
+  unfold Binary.binary
+  simp only []
+  repeat' split
+  all_goals simp
+
+/-- `binary` does not read the sign -/
+theorem binary_sign (F : FTy) (b m : Nat) (e : Int) (neg many lossy : Bool) :
+    Binary.binary F b ⟨m, e, neg, many⟩ lossy = Binary.binary F b ⟨m, e, false, many⟩ lossy := rfl
+
+/-- what the syntax layer owes for a **truncated** `Number` of a power-of-two radix: the mantissa word holds the first
+`u64_step` significant digits, more follow, and the value of the digit slices with the explicit exponent is
+`(all significant digits)·base^exponent / radix^(number of digits beyond u64_step)` -/
+structure TruncPow2At (c : Cfg) (n : Number) : Prop where
+  exp : ExpInRange n.exponent
+  valid : ∀ x ∈ n.integer ++ n.fraction.getD [], x < 256 ∧ Binary.digitVal x c.mantissaRadix < c.mantissaRadix
+  long : (smallSetOf c.feats).u64Step c.mantissaRadix < (sigDigits c.mantissaRadix n.integer n.fraction).length
+  mant : n.mantissa = LexVerif.Proof.SlowBinary.valOf c.mantissaRadix 0
+    ((sigDigits c.mantissaRadix n.integer n.fraction).take ((smallSetOf c.feats).u64Step c.mantissaRadix))
+  value : RatEq (litFrac c.mantissaRadix c.exponentBase (numberLit c n))
+    ((powFrac c.exponentBase n.exponent
+        (LexVerif.Proof.SlowBinary.valOf c.mantissaRadix 0 (sigDigits c.mantissaRadix n.integer n.fraction))).1,
+      (powFrac c.exponentBase n.exponent
+        (LexVerif.Proof.SlowBinary.valOf c.mantissaRadix 0 (sigDigits c.mantissaRadix n.integer n.fraction))).2 *
+        c.mantissaRadix ^ ((sigDigits c.mantissaRadix n.integer n.fraction).length -
+          (smallSetOf c.feats).u64Step c.mantissaRadix))
+
+open LexVerif.Proof.SlowBinary in
+theorem dropWhile_head {α : Type} (p : α → Bool) : ∀ (l : List α) (d : α) (rest : List α),
+    l.dropWhile p = d :: rest → p d = false
+  | [], _, _, h => by simp at h
+  | x :: xs, d, rest, h => by
+    rw [List.dropWhile_cons] at h
+    split at h
+    · exact dropWhile_head p xs d rest h
+    · rename_i hx
+      injection h with h1 _
+      rw [← h1]; simpa using hx
+
+theorem u64Step_pow2 (feats : Features) (hp : feats.powerOfTwo = true) {r : Nat} (hr : IsPow2 r) :
+    r ^ (smallSetOf feats).u64Step r ≤ 2 ^ 64 ∧ 2 ^ 64 < r ^ ((smallSetOf feats).u64Step r + 1) ∧
+    2 ^ 55 ≤ r ^ ((smallSetOf feats).u64Step r - 1) ∧ 1 ≤ (smallSetOf feats).u64Step r := by
+  have hS := radixSet_of_pow2 feats hp
+  rcases hS with h | h <;> rw [h] <;> rcases hr with h | h | h | h | h <;> subst h <;> decide
+
+open LexVerif.Proof.SlowBinary in
+/-- **a power-of-two-radix `Number`, truncated mantissa**: a valid answer of `binary` is `roundNE` of the whole literal
+(`binary_truncated_correct`); an undecided one — the first `u64_step` digits exactly half-way above an even
+significand — is resolved by `slow_binary` (`slowBinary_correct`). No hypothesis beyond the syntax facts `TruncPow2At`. -/
+theorem numberToFloat_pow2_truncated (slow : SlowRadix) {F : FTy} (hF : IsLemireFloat F) (c : Cfg)
+    (hp : c.feats.powerOfTwo = true) (hr : IsPow2 c.mantissaRadix) (hb : IsPow2 c.exponentBase)
+    (n : Number) (hmany : n.manyDigits = true) (T : TruncPow2At c n) :
+    numberToFloat slow c F n false = some (numberBits c F.fmt n) := by
+  obtain ⟨p, eb, lay⟩ := layout_of hF
+  obtain ⟨hfit, hmax, h55, hstep1⟩ := u64Step_pow2 c.feats hp hr
+  have hr2 : 2 ≤ c.mantissaRadix ∧ c.mantissaRadix ≤ 36 := by
+    rcases hr with h | h | h | h | h <;> rw [h] <;> omega
+  have hb2 : 2 ≤ c.exponentBase := by
+    rcases hb with h | h | h | h | h <;> rw [h] <;> omega
+  have hp53 : p ≤ 53 := by
+    have hfmt := lay.fmt
+    rcases hF with h | h <;> subst h
+    · have h1 : FTy.f64.fmt.p = p := by rw [hfmt]
+      have : FTy.f64.fmt.p = 53 := rfl
+      omega
+    · have h1 : FTy.f32.fmt.p = p := by rw [hfmt]
+      have : FTy.f32.fmt.p = 24 := rfl
+      omega
+  have hfp : F.fmt.p = p := by rw [lay.fmt]
+  have hlitpos := litFrac_den_pos (show 0 < c.mantissaRadix by omega) (show 0 < c.exponentBase by omega) (numberLit c n)
+  obtain ⟨hexp, hvalid, hlong, hmant, hvalue⟩ := T
+  generalize hstep : (smallSetOf c.feats).u64Step c.mantissaRadix = step at *
+  generalize hds : sigDigits c.mantissaRadix n.integer n.fraction = ds at *
+  -- digits
+  have hdlt : ∀ d ∈ ds, d < c.mantissaRadix := by
+    intro d hd
+    rw [← hds] at hd
+    unfold sigDigits at hd
+    have := (List.dropWhile_suffix _).subset hd
+    obtain ⟨x, hx, rfl⟩ := List.mem_map.mp this
+    exact (hvalid x hx).2
+  have hsplit : valOf c.mantissaRadix 0 ds =
+      n.mantissa * c.mantissaRadix ^ (ds.length - step) + valOf c.mantissaRadix 0 (ds.drop step) := by
+    conv => lhs; rw [← List.take_append_drop step ds]
+    rw [valOf_append, valOf_split, ← hmant, List.length_drop]
+  have htail : valOf c.mantissaRadix 0 (ds.drop step) < c.mantissaRadix ^ (ds.length - step) := by
+    have := valOf_lt c.mantissaRadix (ds.drop step) (fun d hd => hdlt d (List.mem_of_mem_drop hd)) 0 0
+      (by simp)
+    rwa [List.length_drop, Nat.zero_add] at this
+  have hw : n.mantissa < 2 ^ 64 := by
+    rw [hmant]
+    have := valOf_lt c.mantissaRadix (ds.take step) (fun d hd => hdlt d (List.mem_of_mem_take hd)) 0 0
+      (by simp)
+    rw [List.length_take, Nat.min_eq_left (by omega), Nat.zero_add] at this
+    omega
+  have hw55 : 2 ^ 55 ≤ n.mantissa := by
+    cases hdd : ds with
+    | nil => rw [hdd] at hlong; simp at hlong
+    | cons d rest =>
+      have hd0 : d ≠ 0 := by
+        have := dropWhile_head (· == 0) _ d rest (by rw [← hdd, ← hds]; rfl)
+        simpa using this
+      obtain ⟨s', hs'⟩ : ∃ s', step = s' + 1 := ⟨step - 1, by omega⟩
+      rw [hmant, hdd, hs', List.take_succ_cons]
+      have h1 := valOf_ge_head c.mantissaRadix d (rest.take s')
+      have hl : (rest.take s').length = s' := by
+        rw [List.length_take, Nat.min_eq_left]
+        rw [hdd] at hlong; simp at hlong; omega
+      rw [hl] at h1
+      have h2 : 1 * c.mantissaRadix ^ s' ≤ d * c.mantissaRadix ^ s' := Nat.mul_le_mul_right _ (by omega)
+      have h3 : step - 1 = s' := by omega
+      rw [h3] at h55
+      omega
+  have hM0 : n.mantissa ≠ 0 := by have := Nat.two_pow_pos 55; omega
+  -- the specification side
+  have hbits : numberBits c F.fmt n = litBits F.fmt c.mantissaRadix c.exponentBase (numberLit c n) := by
+    unfold numberBits numberLit
+    simp only [hmany, if_true]
+    rfl
+  have hlit := litBits_exact lay hr2.1 (by omega) hb2 (numberLit c n) (numberLit_digits_lt c n)
+  have hfast : FastPath.tryFastPath (smallSetOf c.feats) F c.mantissaRadix c.exponentBase (numOf n) = .none := by
+    unfold FastPath.tryFastPath FastPath.isFastPath
+    have : (numOf n).manyDigits = true := hmany
+    simp [this]
+  have hmp : moderatePath c F (numOf n) false = Binary.binary F c.exponentBase (numOf n) false := by
+    unfold moderatePath
+    rw [backend_binary _ hp hr]
+  have hpfpos : 0 < (powFrac c.exponentBase n.exponent (valOf c.mantissaRadix 0 ds)).2 *
+      c.mantissaRadix ^ (ds.length - step) :=
+    Nat.mul_pos (powFrac_den_pos (by omega) _ _) (Nat.pow_pos (by omega))
+  have hcg := roundNE_congr' lay.wf hlitpos hpfpos hvalue
+  cases hbin : Binary.binary F c.exponentBase (numOf n) false with
+  | panic => exact absurd hbin (binary_no_panic _ _ _ _)
+  | ok fp =>
+    unfold numberToFloat
+    rw [hfast]
+    simp only
+    rw [hmp, hbin]
+    simp only
+    by_cases hv : 0 ≤ fp.exp
+    · -- `binary` decides
+      have hclz : clz64 n.mantissa < 11 := by
+        obtain ⟨_, _, hlt, _⟩ := LexVerif.Proof.BinaryCorrect.clz_norm hM0 hw
+        have : 2 ^ 55 * 2 ^ clz64 n.mantissa < 2 ^ 55 * 2 ^ 9 := by
+          calc 2 ^ 55 * 2 ^ clz64 n.mantissa ≤ n.mantissa * 2 ^ clz64 n.mantissa := Nat.mul_le_mul_right _ hw55
+            _ < 2 ^ 64 := hlt
+            _ = 2 ^ 55 * 2 ^ 9 := by norm_num
+        have h5 := Nat.lt_of_mul_lt_mul_left this
+        have := (Nat.pow_lt_pow_iff_right (by decide : 1 < 2)).mp h5
+        omega
+      have hcs : clz64 (numOf n).mantissa <
+          shiftOf F.fmt.p (Binary.calculatePower2 F c.exponentBase (numOf n).exponent (clz64 (numOf n).mantissa)) := by
+        have : 64 - F.fmt.p ≤ shiftOf F.fmt.p
+            (Binary.calculatePower2 F c.exponentBase (numOf n).exponent (clz64 (numOf n).mantissa)) := by
+          unfold shiftOf; split <;> omega
+        have e : (numOf n).mantissa = n.mantissa := rfl
+        rw [e] at this ⊢
+        omega
+      have hsound := binary_truncated_correct hF hb (numOf n) hw hexp (c.mantissaRadix ^ (ds.length - step))
+        (valOf c.mantissaRadix 0 (ds.drop step)) htail (by
+          intro h; have e : (numOf n).manyDigits = true := hmany; rw [e] at h; exact absurd h (by decide))
+        hM0 hcs hbin hv
+      have e2 : (numOf n).mantissa * c.mantissaRadix ^ (ds.length - step) + valOf c.mantissaRadix 0 (ds.drop step) =
+          valOf c.mantissaRadix 0 ds := hsplit.symm
+      have e3 : (numOf n).exponent = n.exponent := rfl
+      rw [e2, e3, ← hcg] at hsound
+      rw [if_neg (by omega), toNative_eq F fp n.isNegative hsound, hbits, hlit]
+      rfl
+    · -- `slow_binary`
+      have hinv : fp.exp < 0 := by omega
+      have hsp : slowPath slow c F n { fp with exp := fp.exp - invalidFp } =
+          Binary.slowBinary F c.feats.compact c.mantissaRadix c.exponentBase step n.exponent n.integer n.fraction := by
+        unfold slowPath
+        have h2 : isPowerTwo c.mantissaRadix = true := by
+          rcases hr with h | h | h | h | h <;> rw [h] <;> decide
+        rw [hp, h2, hstep]
+        simp
+      have hslow := slowBinary_correct F hF c.feats.compact c.mantissaRadix hr c.exponentBase hb step hfit hmax
+        n.exponent hexp n.integer n.fraction hvalid (by
+          rw [hds, ← hmant]
+          refine ⟨fp, ?_, hinv⟩
+          rw [← binary_sign F c.exponentBase n.mantissa n.exponent n.isNegative true false]
+          have e : numOf n = ⟨n.mantissa, n.exponent, n.isNegative, true⟩ := by unfold numOf; rw [hmany]
+          rw [← e]; exact hbin)
+      rw [hds, ← hcg] at hslow
+      rw [if_pos hinv, hsp, toNative_eq F _ n.isNegative hslow, hbits, hlit]
+      rfl
+
 end LexVerif.Props.C05Final
